@@ -6,4 +6,5 @@ func genAll(repo string) {
 	genResolver(repo)
 	genGeom(repo)
 	genManager(repo)
+	genFileLog(repo)
 }
